@@ -298,7 +298,7 @@ Proof. exact program_run. Qed.
 Print Assumptions C02_structured_program_runs.
 (* its premises on a concrete machine: the loaded example program in a running VM *)
 Definition ex_running_ctl : rt :=
-  let r := load (create_rt [] 0 0 (100 * 100) 150) (compile_block ex_ctl) in
+  let r := load (create_rt [] 0 0 0 150) (compile_block ex_ctl) in
   rt_with r (r_ctxs r) (Some 0) StRunning false false true false [] [] (r_nss r) (r_clock r) (r_timestamp r) (r_next_id r).
 Example structured_program_premises :
   let c := push_frame (new_context 0 false) (mk_frame default_ns (compile_block ex_ctl) None None []) in
